@@ -176,6 +176,7 @@ type Sched struct {
 	clockVer uint64
 	spawned  int
 	scratch  []trans
+	active   bool
 }
 
 // S is the scheduler of the execution in progress (one per process).
@@ -205,9 +206,32 @@ func hstr(s string) uint64 { f := fnv.New64a(); f.Write([]byte(s)); return f.Sum
 // ---------------------------------------------------------------------------
 // thread side
 
+// outside of a run (sequential harness code that calls into instrumented
+// code) the synchronisation shims degrade to their uncontended sequential
+// meaning; anything that needs a second thread panics.
+var onceOutside = map[uintptr]bool{}
+
+func passthrough(o *op) *op {
+	switch o.k {
+	case KLock, KUnlock, KRLock, KRUnlock, KWGAdd, KAtomic, KYield, KEnvYield, KOnceLeave, KClock, KSleep:
+		return o
+	case KOnceEnter:
+		if !onceOutside[o.obj] {
+			onceOutside[o.obj] = true
+			o.rok = true
+		}
+		return o
+	case KChoose:
+		if o.n <= 1 {
+			return o
+		}
+	}
+	panic("vsched: " + o.k.String() + " outside of vsched.Run")
+}
+
 func (s *Sched) do(o *op) *op {
-	if s == nil {
-		panic("vsched: hooked operation outside of vsched.Run")
+	if s == nil || !s.active {
+		return passthrough(o)
 	}
 	if s.aborting {
 		runtime.Goexit()
@@ -226,7 +250,7 @@ func (s *Sched) do(o *op) *op {
 }
 
 func (s *Sched) spawn(f func(), sys bool) {
-	if s == nil {
+	if s == nil || !s.active {
 		panic("vsched: Go outside of vsched.Run")
 	}
 	if s.aborting {
@@ -364,6 +388,9 @@ func Choose(n int, tag string) int {
 // Note appends a monitor event to the running thread's log.
 func Note(ev string) { S.cur.Log = append(S.cur.Log, ev) }
 
+// CurSig returns the happens-before signature of the current state (callable by the running thread).
+func CurSig() uint64 { return S.Sig() }
+
 // Cur returns the running thread.
 func Cur() *Thread { return S.cur }
 
@@ -399,7 +426,7 @@ func Base() time.Time { return base }
 
 func TimeNow() time.Time {
 	s := S
-	if s == nil || s.Mode == ClockFrozen {
+	if s == nil || !s.active || s.Mode == ClockFrozen {
 		return base
 	}
 	o := s.do(&op{k: KClock})
@@ -408,7 +435,7 @@ func TimeNow() time.Time {
 func TimeSince(t time.Time) time.Duration { return TimeNow().Sub(t) }
 func TimeSleep(d time.Duration) {
 	s := S
-	if s == nil || s.Mode == ClockFrozen {
+	if s == nil || !s.active || s.Mode == ClockFrozen {
 		return
 	}
 	s.do(&op{k: KSleep, dur: d})
@@ -907,7 +934,7 @@ func (s *Sched) describe(tr trans) string {
 // Run executes main under the scheduler: replays o.Prefix, then takes choice 0.
 func Run(main func(), o RunOpts) (res Result) {
 	s := &Sched{back: make(chan struct{}, 1), chans: map[uintptr]*vchan{}, mus: map[uintptr]*vmutex{}, wgs: map[uintptr]*vwg{},
-		onces: map[uintptr]*vonce{}, atoms: map[uintptr]*vatom{}, Mode: o.Mode}
+		onces: map[uintptr]*vonce{}, atoms: map[uintptr]*vatom{}, Mode: o.Mode, active: true}
 	S = s
 	maxSteps := o.MaxSteps
 	if maxSteps == 0 {
@@ -987,6 +1014,7 @@ loop:
 			idx = o.Prefix[pi]
 			if idx >= len(all) {
 				s.abort()
+				s.active = false
 				panic(ReplayDivergence{fmt.Sprintf("replay divergence at point %d: choice %d of %d enabled", pi, idx, len(all))})
 			}
 		} else if o.Visit != nil {
@@ -1030,6 +1058,7 @@ loop:
 		res.DeadInfo = sb.String()
 	}
 	s.abort()
+	s.active = false
 	return res
 }
 
